@@ -253,7 +253,7 @@ theorem OutOK.frame {σ : Subst} {D D' : List VId} {ρ' ρ1' : Env Val} {o0 o : 
 theorem cseKeyMatch_spec {n1 n : Node} (h : cseKeyMatch n1 n = true) :
     n1.op = n.op ∧ n1.outs.length = n.outs.length ∧ n1.ins = n.ins ∧ n1.attrs = n.attrs := by
   simp only [cseKeyMatch, Bool.and_eq_true, beq_iff_eq] at h
-  exact ⟨h.1.1.1.1, h.1.1.1.2, h.1.1.2, h.1.2⟩
+  exact ⟨h.1.1.1, h.1.1.2, h.1.2, h.2⟩
 
 theorem cseSkip_false {limit : Nat} {op : OpId} {attrs : List (String × AttrData)} {bodies : List Graph}
     (h : cseSkip limit op attrs bodies = false) : bodies = [] := by
